@@ -264,7 +264,7 @@ Section Spec.
   Hypothesis Hwf : wf_wspec s = true.
   Let psh := ws_pshape s.
   Let np := length psh.
-  Let vs := ws_vaxes s.
+  Let vs := ws_vaxes_eff s.
 
   Lemma wf_parts :
     (exists shape, tens_shape (ws_phys s) = Some shape /\ psh = ws_expand s ++ shape) /\
@@ -408,5 +408,13 @@ End Spec.
     axis embeds physical axis 0 and whose first axis is physical axis 1 named from the end *)
 Example patterned_weights_ex :
   wf_wspec (mkWS (TL [TL [TS (NFin (QArith_base.inject_Z 1)); TS (NFin (QArith_base.inject_Z 2)); TS NPInf]; TL [TS (NFin (QArith_base.inject_Z 4)); TS (NFin (QArith_base.inject_Z 5)); TS (NFin (QArith_base.inject_Z 6))]])
-                 [] [VInt (-1); VDict 1 (VInt 0) 1] (NFin (QArith_base.inject_Z 0))) = true.
+                 [] (Some [VInt (-1); VDict 1 (VInt 0) 1]) (NFin (QArith_base.inject_Z 0))) = true.
 Proof. reflexivity. Qed.
+
+(** ... and a specification without "vaxes": the 2x3 matrix broadcast along a leading axis of size 2 *)
+Example patterned_weights_ex_no_vaxes :
+  let s := mkWS (TL [TL [TS (NFin (QArith_base.inject_Z 1)); TS (NFin (QArith_base.inject_Z 2)); TS NPInf];
+                     TL [TS (NFin (QArith_base.inject_Z 4)); TS (NFin (QArith_base.inject_Z 5)); TS (NFin (QArith_base.inject_Z 6))]])
+                [2] None NNInf in
+  wf_wspec s = true /\ spec_shape s = [2; 2; 3] /\ spec_denote s [1; 0; 2] = Some NPInf.
+Proof. repeat split; reflexivity. Qed.
